@@ -658,10 +658,8 @@ def c14_dimred(n, seed, procs):
         prim = float(pep.objective.eval())
         if prim < t0 - tol - (2e-4 if heur.startswith("logdet") else 2e-5) * sc:
             fails.append(dict(what="primal value %.9g is more than tol=%g below the optimum %.9g" % (prim, tol, t0), oracle="c14_dimred", input=desc, observed=t0 - prim, expected="<= %g" % tol, tags=["c14"]))
-        worst = 0.0
-        for c in pep._list_of_constraints_sent_to_wrapper:
-            v = float(c.expression.eval()); worst = max(worst, v if c.equality_or_inequality == "inequality" else abs(v))
-        for m in pep._list_of_psd_sent_to_wrapper: worst = max(worst, -min_eig(m.eval()))
+        from ocommon import worst_violation
+        worst = worst_violation(pep, min_eig)
         # scale-aware threshold: solver noise is ~1e-8 absolute; a violation comparable to the value itself is not noise
         if worst > 1e-5 * sc and worst > 1e-6:
             if worst > max(1e-5, 1e-2 * small):
@@ -885,11 +883,8 @@ def c02_instance(n, seed, procs):
         ip = a * b
         if abs(ip.eval() - float(a.eval() @ b.eval())) > 1e-7 * sc:
             fails.append(dict(what="value of <a,b> differs from the inner product of the values", oracle="c02_instance", input=desc, tags=["c02"]))
-        worst = 0.0
-        for c in pep._list_of_constraints_sent_to_wrapper:
-            v = float(c.expression.eval()); worst = max(worst, v if c.equality_or_inequality == "inequality" else abs(v))
-        for m in pep._list_of_psd_sent_to_wrapper:
-            worst = max(worst, -min_eig(m.eval()))
+        from ocommon import worst_violation
+        worst = worst_violation(pep, min_eig)
         if worst > max(1e-5, 1e-2 * small):
             fails.append(dict(what="a sent constraint / LMI is violated at the returned instance by %.2e (value %.2e)" % (worst, tau), oracle="c02_instance", input=desc, tags=["c02"]))
         mets = [float(m.eval()) for m in pep.list_of_performance_metrics]
